@@ -20,6 +20,8 @@ def known():
 
 def excluded_step(prop, step, proc):
     """-> finding id if this step belongs to a class excluded by a 'known' finding"""
+    if os.environ.get("VERIF_NO_EXCLUDE"):
+        return None  # replay mode: the recorded case must reproduce the finding itself
     for f in known():
         if f.get("status") != "known":
             continue
